@@ -142,6 +142,8 @@ func scenario(h []fsops.Op, eager bool, preempt int, racing bool) *explore.Scena
 		vfs.Reset(root)
 		paths, dirSet := configured(root)
 		var obs1, obs2 dirmodel.Observation
+		var getOnly, getWant map[string]string
+		var getNames []string
 		var applyErr error
 		var probed, probeSeen []string
 		in := &explore.Instance{Names: []string{"main"}}
@@ -173,6 +175,15 @@ func scenario(h []fsops.Op, eager bool, preempt int, racing bool) *explore.Scena
 				return
 			}
 			sched.Quiesce("history done")
+			// first, what a caller sees that only ever asks for the devices it needs (GetDevice, no
+			// listing): two rounds, as below
+			// - and only for names that resolve in the final tree (a lookup that misses rescans)
+			ref, _ := cdi.NewCache(cdi.WithSpecDirs(paths...), cdi.WithAutoRefresh(false))
+			getNames = dirmodel.Resolved(ref)
+			getWant = dirmodel.GetOnly(ref, getNames)
+			_ = dirmodel.GetOnly(cache, getNames)
+			sched.Quiesce("first GetDevice-only queries done")
+			getOnly = dirmodel.GetOnly(cache, getNames)
 			obs1 = dirmodel.Observe(cache)
 			sched.Quiesce("first queries done")
 			obs2 = dirmodel.Observe(cache)
@@ -197,6 +208,13 @@ func scenario(h []fsops.Op, eager bool, preempt int, racing bool) *explore.Scena
 			}
 			fresh, _ := cdi.NewCache(cdi.WithSpecDirs(paths...), cdi.WithAutoRefresh(false))
 			fo := dirmodel.Observe(fresh)
+			if fg := getWant; getOnly != nil && !reflect.DeepEqual(getOnly, fg) {
+				for _, q := range getNames {
+					if getOnly[q] != fg[q] {
+						return "not-converged:GetDevice-only:after-" + h[len(h)-1].Kind, fmt.Sprintf("after %v and quiescence the second round of GetDevice(%s) (no other query made) returns %s, a fresh cache %s", h, q, strings.TrimPrefix(getOnly[q], root), strings.TrimPrefix(fg[q], root)), nil
+					}
+				}
+			}
 			for _, p := range probed {
 				seen := false
 				for _, q := range probeSeen {
@@ -544,7 +562,7 @@ func main() {
 				Converged []bool   `json:"converged"`
 				Detail    []string `json:"detail"`
 			}
-			if err := realHelper("replay", map[string]any{"dirs": dirs, "present": present, "histories": [][]fsops.Op{f.h}, "deadline_ms": 3000, "probe": true, "pace_ms": map[bool]int{true: 30, false: 0}[f.eager]}, &ro); err != nil {
+			if err := realHelper("replay", map[string]any{"dirs": dirs, "present": present, "histories": [][]fsops.Op{f.h}, "deadline_ms": 3000, "probe": true, "get_only": strings.Contains(f.v.Sig, "GetDevice-only"), "pace_ms": map[bool]int{true: 30, false: 0}[f.eager]}, &ro); err != nil {
 				die(2, "INFRA: real replay failed:", err)
 			}
 			if ro.Converged[0] {
